@@ -380,7 +380,7 @@ func oracle(args []string) {
 	corpus := fs.String("corpus", "", "corpus directory (cases replayed first)")
 	fs.Parse(args)
 	w := hx.Create(filepath.Join(*out, "oracle.jsonl"))
-	sum := summary{Kind: "summary", Dist: map[string]int{}, Rule: "generated valid files of every SEC code, IAT, ADV, mixed and large (160+ entries) batches; each perturbed in memory (28 kinds: any control field, amount, code, routing number, check digit, trace, addenda list, entry list, batch list), re-validated as is and, for entry level changes, again after re-tabulating with Create(); every accepted file/batch is compared with an independent recomputation of the control arithmetic. non-trivial = perturbed or re-tabulated case that was applicable; distinct by the hex encoding of the resulting skeleton"}
+	sum := summary{Kind: "summary", Dist: map[string]int{}, Rule: "generated valid files of every SEC code, IAT, ADV, mixed and large (160+ entries) batches; each perturbed in memory (29 kinds: any control field, amount, code, routing number, check digit, trace, addenda list, entry list, batch list), re-validated as is and, for entry level changes, again after re-tabulating with Create(); every accepted file/batch is compared with an independent recomputation of the control arithmetic. non-trivial = perturbed or re-tabulated case that was applicable; distinct by the hex encoding of the resulting skeleton"}
 	seen := map[string]bool{}
 	emit := func(c tcase, fails [][2]string) {
 		for _, f := range fails {
